@@ -213,7 +213,7 @@ def units(tier, seed):
     for opn in ['utpm mul utpm', 'utpm div utpm', 'pow3', 'square', 'exp', 'sin', 'log', 'sqrt', 'dot(vec,vec)']:
         if opn in O.by_name():
             out.append(Unit('C12/%s/D17,P1' % opn, 'symx.props.c12', 'h_op', {'opname': opn, 'D': 17, 'P': 1}, {'property': PROP, 'path_budget': 300}))
-    for pn in ['x*x', 'x/(1+x*x)', 'exp', 'prod', 'dot(mat,mat)', 'buffer', 'inv', 'sin(x)*x', 'x**3', 'sqrt', 'outer']:
+    for pn in ['x*x', 'x/(1+x*x)', 'exp', 'prod', 'dot(mat,mat)', 'buffer', 'inv', 'sin(x)*x', 'x**3', 'sqrt', 'outer', 'dot(rank3,mat)', 'dot(vec,rank3)', 'sum(axis=0)', 'tile(2,2)', 'x[[0,2]]*c']:
         out.append(Unit('C12/reverse/%s/D3,P1' % pn, 'symx.props.c12', 'h_reverse', {'pname': pn, 'D': 3, 'P': 1}, {'property': PROP, 'float_tol': 1e-6}))
         if tier != 'quick':
             out.append(Unit('C12/reverse/%s/D4,P2' % pn, 'symx.props.c12', 'h_reverse', {'pname': pn, 'D': 4, 'P': 2}, {'property': PROP, 'float_tol': 1e-6}))
